@@ -212,6 +212,25 @@ func (f *Frame) inlineCall(st *State, r *Term, target *ssa.Function, tmap TMap, 
 		}
 		sub.vals[fv] = bindings[i]
 	}
+	if sub.contract != nil && len(sub.contract.Requires) > 0 {
+		f.ctx.eng.callSiteN++
+		sub.presiteName = fmt.Sprintf("inl%dpre", f.ctx.eng.callSiteN)
+		for i, rq := range sub.contract.Requires {
+			se := sub.specEnv(st, st)
+			se.positive = false
+			se.wit, se.witParam = rq.Wit, rq.WitParam
+			f.useActiveWitnesses(se, st)
+			label := rq.Label
+			if label == "" {
+				label = fmt.Sprint(i)
+			}
+			f.check("pre", "->"+shortKey(sub.contract.Key)+":"+label, r, se.evalBool(rq.Expr), token.NoPos)
+			se2 := sub.specEnv(st, st)
+			se2.positive = true
+			se2.site = sub.presiteName
+			f.ctx.assume(Implies(r, se2.evalBool(rq.Expr)))
+		}
+	}
 	// a callee that cannot return normally makes the rest unreachable
 	exit, reach, results := sub.run(st, r)
 	// copy exit state into st (st is the caller's private state object)
@@ -253,7 +272,7 @@ func (f *Frame) havocCall(st *State, r *Term, target *ssa.Function, sig *types.S
 		if target != nil {
 			name = shortKey(funcKey(target))
 		}
-		f.frameCheckCall(r, name, nil, false, token.NoPos)
+		f.frameCheckCall(st, r, name, nil, false, token.NoPos)
 	}
 	if top {
 		f.havocTop(st)
@@ -347,7 +366,7 @@ func (f *Frame) builtin(st *State, r *Term, name string, cc *ssa.CallCommon, pos
 		ks := f.sortOf(mt.Key())
 		dn := f.mdName(mt.Key(), mt.Elem())
 		D := f.ctx.comp(st, dn, ArrS(SInt, ArrS(ks, SBool)))
-		f.frameCheckMap(r, mt, m, k, "map-delete:"+describe(cc.Args[0]), pos)
+		f.frameCheckMap(st, r, mt, m, k, "map-delete:"+describe(cc.Args[0]), pos)
 		// delete on a nil map is a no-op
 		st.heap[dn] = f.ctx.name("MD", Ite(Eq(m, IntLit(0)), D, Store(D, m, Store(Select(D, m), k, False))))
 		return TupleVal{}
@@ -424,7 +443,7 @@ func (f *Frame) appendOp(st *State, r *Term, cc *ssa.CallCommon, pos token.Pos) 
 		if nv, ok := n.intVal(); ok && nv == 1 {
 			idx = Slot(do, dl)
 		}
-		f.check("frame", "append:"+describe(cc.Args[0]), r, Or(Eq(n, IntLit(0)), Not(inplace), f.writeAllowed(en, db, idx)), pos)
+		f.check("frame", "append:"+describe(cc.Args[0]), r, Or(Eq(n, IntLit(0)), Not(inplace), f.writeAllowed(st, en, db, idx)), pos)
 	}
 	st.alloc = f.ctx.name("alloc", Ite(inplace, st.alloc, Add(nb, IntLit(1))))
 	st.heap[en] = f.ctx.name("E", Store(E, nb, ne))
@@ -438,7 +457,12 @@ func (f *Frame) appendOp(st *State, r *Term, cc *ssa.CallCommon, pos token.Pos) 
 
 func (f *Frame) assumeFrameSinceEntryNothing() {}
 
-func (f *Frame) isFresh(ref *Term) *Term { return Ge(ref, f.top().entry.alloc) }
+func (f *Frame) isFresh(ref *Term) *Term {
+	if f.parentEntryOverride != nil {
+		return Ge(ref, f.parentEntryOverride.alloc)
+	}
+	return Ge(ref, f.top().entry.alloc)
+}
 
 func (f *Frame) top() *Frame {
 	p := f
@@ -484,8 +508,8 @@ func (e *Engine) effectsOf(callee *ssa.Function, caller *Frame) *effects {
 			return
 		}
 		seen[k] = true
-		if ct := e.contracts.Funcs[funcKey(fn)]; ct != nil && ct.Pure {
-			return
+		if ct := e.contracts.Funcs[funcKey(fn)]; ct != nil && !ct.Inline && (ct.Pure || ct.Fresh || (ct.ModifiesSet && modifiesNothing(ct))) && fn != target {
+			return // by contract it writes nothing that existed before the call
 		}
 		if _, ok := externModels[fullName(fn)]; ok {
 			return
